@@ -236,7 +236,18 @@ class PrimMixin(object):
         return [(VInt(Lin.sym(s)), st)]
 
     def p_range(self, ctx, st, args, kwargs, node):
-        return [(VSym(("range", next_id()), kind="range"), st.add_pred(("range", 0), ("dummy",)) if False else st)]
+        # range(stop) / range(start, stop[, positive constant step]): the bounds are kept so that
+        # an element is known to lie in [start, stop - 1]
+        lo = hi = None
+        if len(args) == 1 and isinstance(args[0], VInt):
+            lo, hi = Lin.const(0), args[0].lin
+        elif len(args) in (2, 3) and isinstance(args[0], VInt) and isinstance(args[1], VInt):
+            step_ok = len(args) == 2 or (isinstance(args[2], VInt) and args[2].lin.is_const() and args[2].lin.c >= 1)
+            if step_ok:
+                lo, hi = args[0].lin, args[1].lin
+        if lo is None:
+            return [(VSym(("range", next_id()), kind="range"), st)]
+        return [(VSym(("range", next_id(), lo.key(), hi.key()), kind="range"), st)]
 
     p_xrange = p_range
 
@@ -524,6 +535,17 @@ class PrimMixin(object):
         if name == "join":
             return [(VBytes(("join", next_id())), st)]
         if name == "format":
+            # "<prefix>{0}<suffix>".format(<int>) is the concatenation prefix + str(int) + suffix
+            if isinstance(recv, VConst) and isinstance(recv.v, str) and len(args) == 1 and not kwargs and isinstance(args[0], VInt):
+                import re as _re
+                m_ = _re.fullmatch(r"([^{}]*)\{0?\}([^{}]*)", recv.v)
+                if m_ and not args[0].lin.is_const():
+                    (sv, st2), = self.p_str(ctx, st, [args[0]], {}, node)
+                    if isinstance(sv, VBytes):
+                        t = ("cat", ("cat", ("const", repr(m_.group(1))), sv.t), ("const", repr(m_.group(2))))
+                        return [(VBytes(t), st2)]
+                if m_ and args[0].lin.is_const():
+                    return [(VConst(recv.v.format(args[0].lin.c)), st)]
             return [(VBytes(("dynfmt", next_id())), st)]
         if name == "zfill":
             bt = self.bytes_term(recv)
